@@ -236,7 +236,9 @@ def rule_dfs_epilogue(prog, fixture=False):
             # delegated to a helper?
             if is_call(e) and depth < 3:
                 tgs = prog.call_targets(fn, e)
-                if tgs and all(t.raw.get("ret") == "int" for t in tgs) and not all(_is_status_helper(prog, t) for t in tgs):
+                st_here = ps.before(n) or set()
+                if tgs and all(t.raw.get("ret") == "int" for t in tgs) and not all(_is_status_helper(prog, t) for t in tgs) \
+                        and st_here <= {"U"} and all(t.params for t in tgs):
                     # any repo function that computes the exit status: the same obligations inside it
                     for t in tgs:
                         if t.uid not in checked:
